@@ -21,15 +21,22 @@ import pyx12.segment
 
 
 # ------------------------------------------------------------------ one observation of the real code
-def observe(node, data, tl=None, only_refdes=None):
-    """-> (res, codes, exception name, codes reported for other reference designators)"""
+def _comp_of(refdes):
+    m = re.search(r'-(\d+)$', str(refdes)) if refdes is not None else None
+    return int(m.group(1)) if m else 0
+
+
+def observe(node, data, tl=None, only_refdes=None, with_comp=False):
+    """-> (res, codes, exception name, codes reported for other reference designators[, (code, component) pairs])"""
     errh = pyx12.error_handler.errh_list()
     try:
         r = node.is_valid(data, errh) if tl is None else node.is_valid(data, errh, list(tl))
     except Exception as e:
-        return ('exc', tuple(str(x[0]) for x in errh.err_ele), type(e).__name__, ())
+        return ('exc', tuple(str(x[0]) for x in errh.err_ele), type(e).__name__, ()) + (((),) if with_comp else ())
     res = 'true' if r is True else ('false' if r is False else 'exc')
     exc = '' if res != 'exc' else 'non-boolean result %r' % (r,)
+    if with_comp:
+        return (res, tuple(str(x[0]) for x in errh.err_ele), exc, (), tuple((str(x[0]), _comp_of(x[3])) for x in errh.err_ele))
     if only_refdes is None:
         return (res, tuple(str(x[0]) for x in errh.err_ele), exc, ())
     mine = tuple(str(x[0]) for x in errh.err_ele if x[3] == only_refdes)
@@ -290,9 +297,9 @@ class Recorder(object):
         k = self.sid(sig, cd)
         excl = tuple(kd['hasExt'] and kd['ext'] in excl_set for kd in cd['kids'])
         for c in composite_cases(cd, self.tabs):
-            out = observe(node, composite_data(c))
+            out = observe(node, composite_data(c), with_comp=True)
             self.ncalls += 1
-            self.put(self.crecs, (k, None if c is None else tuple(c), cs, excl), out[:3], ('comp', self.fname, li) + where)
+            self.put(self.crecs, (k, None if c is None else tuple(c), cs, excl), out[:3] + (out[4],), ('comp', self.fname, li) + where)
 
     # -- segment_if.is_valid: the format selected by a preceding qualifier
     def run_qualified(self, node, s, cs, si):
